@@ -18,6 +18,12 @@ class InjectedFault(Exception):
     "Fault F5: a function of the library 'fails' on entry"
 
 
+class InjectedInterrupt(BaseException):
+    """Fault F5, interrupt flavour: the failure delivered at a function entry is
+    not an `Exception` subclass (like KeyboardInterrupt). A repair that restores
+    state in `finally:` survives it, one that uses `except Exception:` does not."""
+
+
 class HarnessError(Exception):
     pass
 
@@ -33,7 +39,8 @@ class EntryTracer:
     mode 'func' : raise InjectedFault on the k-th entry into one function
     """
 
-    def __init__(self, mode, n=None, func=None, k=None):
+    def __init__(self, mode, n=None, func=None, k=None, exc=None):
+        self.exc = InjectedInterrupt if exc == 'base' else InjectedFault
         self.prefix = lib.lib_prefix()
         self.plen = len(self.prefix)
         self.mode = mode
@@ -62,14 +69,14 @@ class EntryTracer:
             if self.total == self.n and not self.fired:
                 self.fired = True
                 self.where = (fn[self.plen:], code.co_qualname)
-                raise InjectedFault('injected at entry %d: %s:%s' % (self.total, self.where[0], self.where[1]))
+                raise self.exc('injected at entry %d: %s:%s' % (self.total, self.where[0], self.where[1]))
         elif mode == 'func':
             if (fn[self.plen:], code.co_qualname) == self.func:
                 self.seen += 1
                 if self.seen == self.k and not self.fired:
                     self.fired = True
                     self.where = self.func
-                    raise InjectedFault('injected at entry %d of %s:%s' % (self.k, self.func[0], self.func[1]))
+                    raise self.exc('injected at entry %d of %s:%s' % (self.k, self.func[0], self.func[1]))
         return None
 
 
@@ -307,7 +314,7 @@ class Host:
         emmet = self.emmet
         info = {'fired': False, 'stage': None, 'window': False, 'peer_n': 0, 'entries': None}
         holder = h.spec.get('holder')
-        glob = self.global_of(h.spec) if holder != 'none' else None
+        glob = self.global_of(h.spec)
 
         fail_at = None
         if fault and fault['kind'] == 'F3':
@@ -317,7 +324,10 @@ class Host:
             h.peer.protect = tuple(newline_of(h.spec, glob))
 
         if holder == 'none':
-            thunk = lambda: emmet.expand(abbr)
+            if glob is not None:
+                thunk = lambda: emmet.expand(abbr, global_config=glob)
+            else:
+                thunk = lambda: emmet.expand(abbr)
         elif entry == 'expand':
             if holder == 'Config':
                 inst = h.instance
@@ -343,9 +353,9 @@ class Host:
             sys.setrecursionlimit(frame_depth() + 2 + max(4, int(fault.get('budget', 50))))
         if fault and fault['kind'] == 'F5':
             if fault.get('mode') == 'func':
-                tracer = EntryTracer('func', func=fault.get('func'), k=fault.get('k'))
+                tracer = EntryTracer('func', func=fault.get('func'), k=fault.get('k'), exc=fault.get('exc'))
             else:
-                tracer = EntryTracer('nth', n=fault.get('n'))
+                tracer = EntryTracer('nth', n=fault.get('n'), exc=fault.get('exc'))
         h.calls += 1
         try:
             if tracer is not None:
@@ -365,7 +375,7 @@ class Host:
             info['fired'] = True
             info['stage'], info['window'] = classify_traceback(err.__traceback__)
             outcome = ['fault', 'F3']
-        except InjectedFault as err:
+        except (InjectedFault, InjectedInterrupt) as err:
             info['fired'] = True
             info['stage'], info['window'] = classify_traceback(err.__traceback__)
             info['where'] = list(tracer.where) if tracer is not None and tracer.where else None
